@@ -349,9 +349,9 @@ def _patterns(nbytes):
     return pats
 
 
-def eval_extractor(unit, fn, nbytes):
-    """a function (pointer to bytes) -> unsigned integer: must return the big-endian value of the first nbytes bytes
-    -> (mismatches, patterns)"""
+def eval_extractor(unit, fn, nbytes, offset=0):
+    """a function (pointer to bytes) -> unsigned integer: must return the big-endian value of the nbytes bytes at `offset`
+    (helpers of the unit are evaluated in place) -> (mismatches, patterns)"""
     ps = unit.params(fn)
     if len(ps) != 1:
         raise FD.Unknown("extractor with %d parameters" % len(ps), fn)
@@ -359,11 +359,21 @@ def eval_extractor(unit, fn, nbytes):
     pats = _patterns(nbytes)
     for pat in pats:
         def deref(a, n, pat=pat):
-            k = a - _MEM
+            k = a - _MEM - offset
             if 0 <= k < nbytes:
                 return pat[k]
+            if -offset <= k < 0:
+                return (b"#bundle\0" + bytes(offset))[k + offset]          # what stands in front of the field (a bundle's magic)
             raise FD.Unknown("read of byte %d of an %d-byte field" % (k, nbytes), n)
-        ev = FD.Eval(deref=deref, max_steps=2000)
+        holder = {}
+
+        def call(nm, vals, n):
+            fs = [f_ for f_ in unit.functions.get(nm, []) if unit.body(f_) is not None]
+            if len(fs) == 1 and fs[0] is not fn:
+                return holder["ev"].call_function(unit, fs[0], vals)
+            raise FD.Unknown("call to %s" % nm, n)
+        ev = FD.Eval(deref=deref, call=call, max_steps=4000)
+        holder["ev"] = ev
         got = ev.call_function(unit, fn, [_MEM])
         want = int.from_bytes(bytes(pat), "big")
         if not isinstance(got, int) or (got & (2 ** (8 * nbytes) - 1)) != want or got < 0 or got >= 2 ** (8 * nbytes):
